@@ -102,9 +102,9 @@ def export_behaviours(ctx, profile, num, depth=15):
     return path, behs
 
 
-def run_driver(ctx, args, label):
+def run_driver(ctx, args, label, binp=None):
     """Runs harness/cmd/production. Returns (results, events, outdir)."""
-    binp = ctx.build("production")
+    binp = binp or ctx.build("production")
     out = ctx.tmp("drv-" + label)
     rc, o = ctx.run([binp] + args + ["-out", out], timeout=3000)
     if rc == 3:
@@ -120,11 +120,11 @@ def run_driver(ctx, args, label):
     return res, read_ndjson(os.path.join(out, "trace.ndjson")), out
 
 
-def validate_trace(ctx, path, timeout=2400):
+def validate_trace(ctx, path, timeout=2400, module="Trace_Production"):
     """ctx.validate_trace, except that a failing invariant is located through the depth of the (linear) state graph:
     after an invariant violation TLC's postcondition no longer sees the high-water mark register.
     Returns (accepted, index of the offending event or None, length, TLCResult)."""
-    r = ctx.tlc("rules", "Trace_Production", cfg="Trace_Production.cfg", workers=1, timeout=timeout, dfs=True, count=False,
+    r = ctx.tlc("rules", module, cfg=module + ".cfg", workers=1, timeout=timeout, dfs=True, count=False,
                 files=dict(SCHED, **{"trace.ndjson": path}), label="trace:" + os.path.basename(path))
     if r.timeout:
         raise Infra("trace validation timed out: %s" % path)
@@ -287,3 +287,128 @@ def binding_demo(ctx):
         if name in variants and where.get(name) != at:
             raise Infra("binding demonstration: the %s variant was rejected at event %s, expected %d" % (name, where.get(name), at))
     ctx.cov["binding_demo"] = "recorded run accepted; variants rejected at the expected event: " + ", ".join(k for k in variants if k != "original")
+
+
+# ------------------------------------------------------------------------------------------------ packer loop / solo
+PL_TIMING = ("T_NoStalePack", "T_NotLate")       # judged with margins on a busy machine: confirmed by a second recording
+
+
+def _record(ctx, mode, extra, label, binp=None):
+    return run_driver(ctx, ["-mode", mode, "-seed", str(ctx.seed)] + extra, label, binp=binp)
+
+
+def _pl_validate(ctx, events, out, name):
+    path = os.path.join(out, name + ".ndjson")
+    write_ndjson(path, events)
+    return validate_trace(ctx, path, timeout=300, module="Trace_PackerLoop")
+
+
+def packer_loop_and_solo(ctx, acc):
+    """specs/rules/PackerLoop.tla + Solo.tla: exhaustive model, teeth, real-time binding of the real Node.Run packer loop and
+    of the real solo engine (both drivers run while TLC works), trace validation, binding demonstration."""
+    import threading
+    q = ctx.quick
+    box = {}
+
+    binp = ctx.build("production")      # once, before the threads: a running binary must not be re-linked
+
+    def bg(key, mode, extra):
+        try:
+            box[key] = _record(ctx, mode, extra, key, binp=binp)
+        except Exception as e:                      # re-raised in the main thread
+            box[key] = e
+    ths = [threading.Thread(target=bg, args=("packerloop", "packerloop", ["-runs", "3" if q else "6", "-blocks", "16" if q else "40"])),
+           threading.Thread(target=bg, args=("solo", "solo", ["-blocks", "7"]))]
+    for t in ths:
+        t.start()
+    try:
+        ctx.tlc_must_hold("rules", "MC_PackerLoop", cfg="MC_PackerLoop_quick.cfg" if q else "MC_PackerLoop_thorough.cfg", workers=4,
+                          timeout=1500, label="packer loop, exhaustive")
+        for cfg in ("MC_Solo_ondemand.cfg", "MC_Solo_interval.cfg"):
+            ctx.tlc_must_hold("rules", "Solo", cfg=cfg, workers=1, timeout=120, label="solo, exhaustive")
+        shown = []
+        for rules, inv in (("NoRecheck", "NoStalePack"),) + ((("NoWindow", "SlotTolerance"),) if not q else ()):
+            t = "\n".join(l for l in _cfg_text("MC_PackerLoop_quick.cfg").splitlines() if not l.startswith("INVARIANT"))
+            t = t.replace("Rules <- AllRules", "Rules <- " + rules) + "\nINVARIANT %s\n" % inv
+            r = ctx.tlc("rules", "MC_PackerLoop", cfg="teeth.cfg", workers=2, timeout=300, count=False, label="packer loop teeth " + rules,
+                        files={"teeth.cfg": t})
+            if r.invariant != inv:
+                raise Infra("packer loop teeth: without %s the invariant %s still holds (%s)" % (rules, inv, r.invariant or r.error))
+            shown.append("%s: %s violated after %d states" % (rules, inv, r.distinct))
+        if not q:
+            for cfg, mod, inv in (("MC_PackerLoop_thorough.cfg", "MC_PackerLoop", "X_OnePerSecond"), ("MC_Solo_ondemand.cfg", "Solo", "X_AlwaysAccepted")):
+                t = "\n".join(l for l in _cfg_text(cfg).splitlines() if not l.startswith("INVARIANT")) + "\nINVARIANT %s\n" % inv
+                r = ctx.tlc("rules", mod, cfg="x.cfg", workers=2, timeout=600, count=False, label="design fact " + inv, files={"x.cfg": t})
+                if r.invariant != inv:
+                    raise Infra("%s was expected to be refuted" % inv)
+                shown.append("%s refuted (a fact of the design, see the module)" % inv)
+        ctx.cov["packerloop_teeth"] = shown
+    finally:
+        for t in ths:
+            t.join()
+    for k in ("packerloop", "solo"):
+        if isinstance(box.get(k), Exception):
+            raise box[k]
+    # ---- packer loop: what the driver decided alone, then the trace specification
+    res, events, out = box["packerloop"]
+    if res is not None:
+        how = {"args": ["-mode", "packerloop", "-runs", "3", "-blocks", "16", "-seed", str(ctx.seed)], "seed": ctx.seed,
+               "note": "real-time run: a replay records a new run with the same schedule seed"}
+        judge(ctx, res, events, "packerloop", how, acc)
+        accepted, pos, ln, r = _pl_validate(ctx, events, out, "packerloop")
+        if not accepted:
+            inv = r.invariant
+            if inv is None:
+                raise Infra("packer loop trace: event %s is not a step of Trace_PackerLoop: %s" % (pos, json.dumps(events[min(pos or 0, len(events) - 1)])[:300]))
+            confirmed = True
+            if inv in PL_TIMING:        # flakiness guard: the same rule has to fail on a second recording
+                res2, events2, out2 = _record(ctx, "packerloop", ["-runs", "3", "-blocks", "16"], "packerloop-again")
+                acc2, pos2, ln2, r2 = _pl_validate(ctx, events2, out2, "packerloop-again")
+                confirmed = (not acc2) and r2.invariant in PL_TIMING
+                if not confirmed:
+                    ctx.cov["packerloop_unconfirmed_timing_alarm"] = inv
+            if confirmed:
+                rp = ctx.save_replay("packerloop-%s-seed%d.json" % (inv, ctx.seed), {"how": how, "signature": "packerloop:" + inv, "offending_index": pos,
+                                                                                      "offending_event": events[min(pos or 0, len(events) - 1)], "trace": events})
+                ctx.report("packerloop:" + inv, "the real packer loop (Node.Run) breaks %s of Trace_PackerLoop.tla at event #%s %s"
+                           % (inv, pos, json.dumps(events[min(pos or 0, len(events) - 1)])[:300]), rp)
+        else:
+            acc["traces_accepted"] = acc.get("traces_accepted", 0) + len(res["runInfo"])
+            acc["events_validated"] = acc.get("events_validated", 0) + ln
+            # binding demonstration on this very recording
+            packs = [i for i, e in enumerate(events) if e["e"] == "Pack"]
+            if len(packs) >= 2:
+                a = [dict(e) for e in events]
+                a[packs[-1]]["at"] -= 3000
+                b = [e for i, e in enumerate(events) if i != packs[0]]
+                for name, evs, want in (("early-pack", a, "T_NotEarly"), ("deleted-pack", b, None)):
+                    ok, p2, _, r2 = _pl_validate(ctx, evs, out, name)
+                    if ok or (want and r2.invariant != want):
+                        raise Infra("packer loop binding demonstration failed: variant %s gives %s" % (name, "accepted" if ok else r2.invariant))
+                ctx.cov["packerloop_binding_demo"] = "recorded run accepted; early-pack (T_NotEarly) and deleted-pack variants rejected"
+        ctx.cov["packerloop_own_blocks"] = res["blocks"]
+    # ---- solo
+    res, events, out = box["solo"]
+    if res is not None:
+        how = {"args": ["-mode", "solo", "-blocks", "7", "-seed", str(ctx.seed)], "seed": ctx.seed}
+        judge(ctx, res, events, "solo", how, acc)
+        path = os.path.join(out, "solo.ndjson")
+        write_ndjson(path, events)
+        accepted, pos, ln, r = validate_trace(ctx, path, timeout=300, module="Trace_Solo")
+        if not accepted and not res["violations"]:
+            ev = events[min(pos or 0, len(events) - 1)]
+            rp = ctx.save_replay("solo-trace-seed%d.json" % ctx.seed, {"how": how, "signature": "solo:trace", "offending_index": pos, "offending_event": ev, "trace": events})
+            ctx.report("solo:trace:" + str(ev.get("mode")), "the real solo engine made a block Solo.tla does not allow, or a cold validator answers "
+                       "differently from the rule: event #%s %s" % (pos, json.dumps(ev)[:300]), rp)
+        elif accepted:
+            acc["traces_accepted"] = acc.get("traces_accepted", 0) + 2
+            blks = [i for i, e in enumerate(events) if e["e"] == "SoloBlock"]
+            c = [dict(e) for e in events]
+            c[blks[-1]]["ok"] = not c[blks[-1]]["ok"]
+            p2 = os.path.join(out, "solo-flipped.ndjson")
+            write_ndjson(p2, c)
+            ok, _, _, _ = validate_trace(ctx, p2, timeout=300, module="Trace_Solo")
+            if ok:
+                raise Infra("solo binding demonstration failed: a flipped verdict was accepted")
+            ctx.cov["solo_binding_demo"] = "recorded run accepted; flipped-verdict variant rejected"
+        ctx.cov["solo_blocks"] = res["blocks"]
